@@ -291,7 +291,7 @@ func drive(id string, p Prop, tier string) int {
 				viols = append(viols, viol{plan: pl, race: true, wkr: res.w, idx: idx, rec: ViolationRec{RunSeed: rs, Class: "race", Detail: raceSummary(rep)}})
 				planRuns += idx + 1
 			case res.r.code != 0 || res.out == nil:
-				return trouble("worker %d of plan %s exited with %d\nstdout: %s\nstderr: %s", res.w, pl.Name, res.r.code, tail(res.r.out, 1500), tail(res.r.err, 3000))
+				return trouble("worker %d of plan %s exited with %d\nstdout: %s\nstderr: %s\n[...]\n%s", res.w, pl.Name, res.r.code, tail(res.r.out, 1500), head(res.r.err, 2500), tail(res.r.err, 1500))
 			default:
 				o := res.out
 				a.merge(o)
@@ -532,6 +532,13 @@ func keys(m map[string]bool) []string {
 }
 
 func round2(f float64) float64 { return float64(int(f*100+0.5)) / 100 }
+
+func head(s string, n int) string {
+	if len(s) > n {
+		return s[:n] + "..."
+	}
+	return s
+}
 
 func tail(s string, n int) string {
 	if len(s) > n {
